@@ -20,7 +20,7 @@ import dynetx.algorithms as al  # noqa: E402
 
 CFGS = {
     "quick": ["MC_paths_u3.cfg", "MC_paths_loops.cfg"],
-    "thorough": ["MC_paths_u3.cfg", "MC_paths_u3t4.cfg", "MC_paths_d3.cfg", "MC_paths_loops.cfg"],
+    "thorough": ["MC_paths_u3.cfg", "MC_paths_u3t4.cfg", "MC_paths_d3.cfg", "MC_paths_loops.cfg", "MC_paths_sparse4.cfg"],
 }
 PLABS = ["int", "zero", "str", "neg", "big"]
 
@@ -175,6 +175,8 @@ def run(prop, tier, seed):
         nodes = sorted({n for _, tr in graphs for (a, b, _) in tr for n in (a, b)}) or [1, 2, 3]
         if tier == "quick":
             graphs = rng.sample(graphs, min(len(graphs), 220))
+        elif len(graphs) > 5000:
+            graphs = rng.sample(graphs, 2500)       # the 4-node sparse domain: TLC checks all 15,625, 2,500 are replayed
         for i, (directed, triples) in enumerate(graphs):
             jobs.append((rng.randrange(1 << 30), directed, triples, PLABS[(i + seed) % len(PLABS)], tier, nodes))
     # larger random graphs (4-6 nodes, up to 6 instants)
